@@ -269,6 +269,25 @@ def r_grade_norm_helpers(rep, f):
             rep.violation("R-GRADE", key, "%s is not a per-component RMS norm: %s" % (fn.split("::")[-1], why[:400]), b.get("sp"))
 
 
+def bare_derivative(p, depth=0):
+    """a stage derivative F_j that enters p (through abs/max/min/joins) without being multiplied by a step: in a state-like
+    quantity every f(x, y) value carries a factor h (y + h*sum a_j F_j); a bare F_j has the dimension state/time"""
+    if not isinstance(p, Poly) or depth > 8:
+        return None
+    for m, c in p.t.items():
+        fs = [a for a, e in m if STAGE_ATOM.match(a) and e > 0]
+        if fs and len(m) == 1 and m[0][1] == 1:
+            return fs[0]
+        for a, e in m:
+            d = DEFS.get(a)
+            if d and d[0].split(":")[0] in ("abs", "max", "min", "phi", "neg", "clamp"):
+                for x in d[1]:
+                    r = bare_derivative(x, depth + 1)
+                    if r:
+                        return r
+    return None
+
+
 def r_grade_solvers(rep, f):
     """the accept operand is scale-free and copy-free; every tolerance scale has the grade of the state"""
     for mod, ty in CONTROLLED:
@@ -293,7 +312,11 @@ def r_grade_solvers(rep, f):
             seen.add(sig)
             gd = g.poly(den)
             key = "R-GRADE-SCALE:%s:tolerance-scale%d" % (fn, len(seen))
-            if gd == (0, 1):
+            bd = bare_derivative(den)
+            if bd:
+                rep.violation("R-GRADE-SCALE", key, "the tolerance scale `%s` contains the bare right-hand-side value %s (a slope, dimension state/time) where a state value belongs: "
+                              "the relative tolerance is then applied to |y'| instead of |y|" % (sig[:120], bd), d["node"].get("sp") if d.get("node") else None)
+            elif gd == (0, 1):
                 rep.ok("R-GRADE-SCALE", key, "scale %s has the grade of the state" % sig[:80])
             elif gd == UNKNOWN:
                 rep.note("%s grade of %s not determined" % (key, sig[:80]))
